@@ -23,6 +23,7 @@ func init() {
 			{"INDEX-UPDATE-TABLE", ruleIndexUpdateTable},
 			{"INDEX-COND-CONJUNCTIVE", ruleIndexCondConjunctive},
 			{"IN-VALUES-DISTINCT", ruleInValuesDistinct},
+			{"SYNC-INDEX-TABLE", ruleSyncIndexTable},
 			{"PREFIX-END-SHAPE", rulePrefixEndShape},
 			{"RECURSION-ARGS", func(c *eng.Ctx) {
 				ruleRecursionArgs(c, "RECURSION-ARGS", []string{"internal/planner/...", "internal/db/...", "internal/connor/...", "client/..."}, 3)
